@@ -23,6 +23,8 @@ ELEM = {"INTEGER": "int", "DEF_INT": "int", "REAL": "real", "DEF_REAL": "real", 
 
 def attr_ty(a):
     k = a.kind
+    if k in DEEP_KINDS:
+        return DEEP_KINDS[k]
     if k in ELEM:
         return "one:" + ELEM[k]
     if k == "ENTITY":
@@ -55,6 +57,13 @@ def dict_lines(schema, abstract=()):
     L.append(f"S SEL_E {t[0]}=ent:{t[0]} {t[1]}=ent:{t[1]}")
     L.append("S SEL_T LEN_T=real CNT_T=int")
     L.append(f"S SEL_M {t[0]}=ent:{t[0]} LEN_T=real")
+    if "dp_e" in schema.by_name:
+        # a select that is a member of a select without being renamed never shows in a file: the reader finds the leaf
+        # through the nesting, the writer writes the leaf -> to the model the members are the leaves, depth first
+        for s, leaves in SEL_LEAVES.items():
+            L.append(f"S {s} " + " ".join((f"{t[0]}=ent:{t[0]}" if x == "#T0" else f"{x}={LEAVES[x]}") for x in leaves))
+        L.append("S S2R RS1=sel:S1 NM_LAB=str")
+        L.append("S S3R RS2=sel:S2R NM_FLAG=bool")
     # what the matcher accepts for an ANDOR family: the root with any non-empty set of its members
     import itertools
     for e in schema.entities:
@@ -414,7 +423,32 @@ ABSTRACT_EXPRESS = ("ENTITY abs_e\n  ABSTRACT SUPERTYPE OF (ONEOF (abs_s));\n  a
                     "ENTITY d_sup\n  SUPERTYPE OF (ONEOF (d_sub));\n  d_a : INTEGER;\n  d_b : REAL;\nEND_ENTITY;\n\n"
                     "ENTITY d_sub\n  SUBTYPE OF (d_sup);\n  d_c : OPTIONAL STRING;\nDERIVE\n  SELF\\d_sup.d_a : INTEGER := 1;\nEND_ENTITY;\n\n"
                     "ENTITY en_e;\n  en_c : colour_t;\n  en_l : LIST [0:?] OF colour_t;\n  en_b : LIST [0:?] OF BOOLEAN;\n"
-                    "  en_g : OPTIONAL LIST [0:?] OF LOGICAL;\n  en_r : LIST [0:?] OF REAL;\n  en_s : LIST [0:?] OF STRING;\nEND_ENTITY;\n\n")
+                    "  en_g : OPTIONAL LIST [0:?] OF LOGICAL;\n  en_r : LIST [0:?] OF REAL;\n  en_s : LIST [0:?] OF STRING;\nEND_ENTITY;\n\n"
+                    "ENTITY dp_e;\n  dp_st : st_t;\n  dp_sl : LIST [0:?] OF st_t;\n  dp_so : OPTIONAL st_t;\n  dp_1 : s1;\n  dp_1b : s1b;\n"
+                    "  dp_2 : OPTIONAL s2;\n  dp_3 : s3;\n  dp_4 : s4;\n  dp_l2 : LIST [0:?] OF s2;\n  dp_l3 : LIST [0:?] OF s3;\n"
+                    "  dp_l4 : LIST [0:?] OF s4;\nEND_ENTITY;\n\n"
+                    "ENTITY dr_e;\n  dr_2 : s2r;\n  dr_3 : OPTIONAL s3r;\n  dr_l : LIST [0:?] OF s3r;\nEND_ENTITY;\n\n")
+
+# enumeration whose items are closed under "proper prefix / extension / shares a prefix", in both declaration orders;
+# selects nested 1..4 deep with typed leaves of every underlying kind, and renamed selects (rs1, rs2) at two levels
+DEEP_TYPES = ("TYPE st_t = ENUMERATION OF (draft, finaldraft, final, revision, fi, finale, deca, deci, d);\nEND_TYPE;\n"
+              "TYPE nm_len = REAL; END_TYPE;\nTYPE nm_mass = REAL; END_TYPE;\nTYPE nm_cnt = INTEGER; END_TYPE;\n"
+              "TYPE nm_lab = STRING; END_TYPE;\nTYPE nm_flag = BOOLEAN; END_TYPE;\nTYPE nm_log = LOGICAL; END_TYPE;\n"
+              "TYPE s1 = SELECT (nm_len, nm_mass, nm_cnt); END_TYPE;\nTYPE s1b = SELECT (nm_lab, nm_flag, st_t); END_TYPE;\n"
+              "TYPE s2 = SELECT (s1, s1b); END_TYPE;\nTYPE s3 = SELECT (s2, {T0}); END_TYPE;\nTYPE s4 = SELECT (s3, nm_log); END_TYPE;\n"
+              "TYPE rs1 = s1; END_TYPE;\nTYPE s2r = SELECT (rs1, nm_lab); END_TYPE;\nTYPE rs2 = s2r; END_TYPE;\n"
+              "TYPE s3r = SELECT (rs2, nm_flag); END_TYPE;\n\n")
+ST_ITEMS = ["DRAFT", "FINALDRAFT", "FINAL", "REVISION", "FI", "FINALE", "DECA", "DECI", "D"]
+LEAVES = {"NM_LEN": "real", "NM_MASS": "real", "NM_CNT": "int", "NM_LAB": "str", "NM_FLAG": "bool", "NM_LOG": "log",
+          "ST_T": "enum:" + ".".join(ST_ITEMS)}
+SEL_LEAVES = {"S1": ["NM_LEN", "NM_MASS", "NM_CNT"], "S1B": ["NM_LAB", "NM_FLAG", "ST_T"]}
+SEL_LEAVES["S2"] = SEL_LEAVES["S1"] + SEL_LEAVES["S1B"]
+SEL_LEAVES["S3"] = SEL_LEAVES["S2"] + ["#T0"]
+SEL_LEAVES["S4"] = SEL_LEAVES["S3"] + ["NM_LOG"]
+DEEP_KINDS = {"XENUM": "one:enum:" + ".".join(ST_ITEMS), "AGG_XENUM": "aggr:enum:" + ".".join(ST_ITEMS),
+              "SEL_S1": "one:sel:S1", "SEL_S1B": "one:sel:S1B", "SEL_S2": "one:sel:S2", "SEL_S3": "one:sel:S3", "SEL_S4": "one:sel:S4",
+              "AGG_S2": "aggr:sel:S2", "AGG_S3": "aggr:sel:S3", "AGG_S4": "aggr:sel:S4",
+              "SEL_S2R": "one:sel:S2R", "SEL_S3R": "one:sel:S3R", "AGG_S3R": "aggr:sel:S3R"}
 
 
 class SchemaX(G.Schema):
@@ -427,7 +461,15 @@ class SchemaX(G.Schema):
                                       G.Entity("d_sub", "d_sup", [G.Attr("d_c", "STRING", True)]),
                                       G.Entity("en_e", None, [G.Attr("en_c", "ENUM", False), G.Attr("en_l", "AGG_ENUM", False),
                                                               G.Attr("en_b", "AGG_BOOL", False), G.Attr("en_g", "AGG_LOG", True),
-                                                              G.Attr("en_r", "AGG_REAL", False), G.Attr("en_s", "AGG_STR", False)])]
+                                                              G.Attr("en_r", "AGG_REAL", False), G.Attr("en_s", "AGG_STR", False)]),
+                                      G.Entity("dp_e", None, [G.Attr("dp_st", "XENUM", False), G.Attr("dp_sl", "AGG_XENUM", False),
+                                                              G.Attr("dp_so", "XENUM", True), G.Attr("dp_1", "SEL_S1", False),
+                                                              G.Attr("dp_1b", "SEL_S1B", False), G.Attr("dp_2", "SEL_S2", True),
+                                                              G.Attr("dp_3", "SEL_S3", False), G.Attr("dp_4", "SEL_S4", False),
+                                                              G.Attr("dp_l2", "AGG_S2", False), G.Attr("dp_l3", "AGG_S3", False),
+                                                              G.Attr("dp_l4", "AGG_S4", False)]),
+                                      G.Entity("dr_e", None, [G.Attr("dr_2", "SEL_S2R", False), G.Attr("dr_3", "SEL_S3R", True),
+                                                              G.Attr("dr_l", "AGG_S3R", False)])]
         G.Schema.__init__(self, base.name, ents, base.targets)
         self.abstract = ("abs_e",)
         self.derived = {"d_sub": {"d_a"}}
@@ -436,10 +478,13 @@ class SchemaX(G.Schema):
         t = G.Schema.express(self)
         a = t.index("ENTITY abs_e")
         b = t.index("END_SCHEMA;")
-        return t[:a] + ABSTRACT_EXPRESS + t[b:]
+        t = t[:a] + ABSTRACT_EXPRESS + t[b:]
+        e0 = t.index("ENTITY ")
+        return t[:e0] + DEEP_TYPES.replace("{T0}", self.targets[0]) + t[e0:]
 
     def simple_instantiable(self):
-        return [e.name for e in self.entities if e.name != "abs_e"]
+        # dr_e (renamed selects: nested typed parameters the Lean model does not cover) is instantiated only by deep_population
+        return [e.name for e in self.entities if e.name not in ("abs_e", "dr_e")]
 
 
 _orig_gen_value = G.gen_value
@@ -453,7 +498,64 @@ def _gen_value(rng, attr, schema, pool):
         return ("aggr", [("tok", rng.choice([".T.", ".F."])) for _ in range(rng.randint(0, 3))])
     if k == "AGG_LOG":
         return ("aggr", [("tok", rng.choice([".T.", ".F.", ".U."])) for _ in range(rng.randint(0, 3))])
+    if k == "XENUM":
+        return ("tok", "." + rng.choice(ST_ITEMS) + ".")
+    if k == "AGG_XENUM":
+        return ("aggr", [("tok", "." + rng.choice(ST_ITEMS) + ".") for _ in range(rng.randint(0, 4))])
+    if k in DEEP_KINDS and (k.startswith("SEL_S") or k.startswith("AGG_S")):
+        sel = k.split("_", 1)[1]
+        one = lambda: deep_select_value(rng, schema, pool, sel)
+        return one() if k.startswith("SEL_") else ("aggr", [one() for _ in range(rng.randint(0, 3))])
     return _orig_gen_value(rng, attr, schema, pool)
+
+
+def leaf_value(rng, leaf):
+    ty = LEAVES[leaf]
+    lit = {"real": lambda: gen_real(rng), "int": lambda: gen_integer(rng), "str": lambda: gen_string(rng),
+           "bool": lambda: rng.choice([".T.", ".F."]), "log": lambda: rng.choice([".T.", ".F.", ".U."])}.get(ty)
+    return ("typed", leaf, ("tok", lit() if lit else "." + rng.choice(ST_ITEMS) + "."))
+
+
+def deep_select_value(rng, schema, pool, sel, leaf=None):
+    """a value of the (nested) select `sel`: the typed leaf, an entity reference, or - for the renamed selects - the
+    renamed select's keyword around the value of the select it renames"""
+    if sel == "S2R":
+        return rng.choice([("typed", "RS1", leaf_value(rng, rng.choice(SEL_LEAVES["S1"]))), leaf_value(rng, "NM_LAB")])
+    if sel == "S3R":
+        return rng.choice([("typed", "RS2", deep_select_value(rng, schema, pool, "S2R")), leaf_value(rng, "NM_FLAG")])
+    x = leaf or rng.choice(SEL_LEAVES[sel])
+    if x == "#T0":
+        c = sorted({i for n, ids in pool.items() if schema.is_a(n, schema.targets[0]) for i in ids})
+        if c:
+            return ("ref", rng.choice(c))
+        x = "NM_CNT"
+    return leaf_value(rng, x)
+
+
+def deep_population(rng, schema, start_id=1, renamed=False):
+    """every enumeration item and every leaf of every select nesting depth once, as attribute and as aggregate element"""
+    t0 = schema.targets[0].upper()
+    insts = [G.Inst(start_id, [(t0, [("tok", "1"), ("null",), ("null",)])])]
+    pool = {schema.targets[0]: [start_id]}
+    i = start_id + 1
+    n = max(len(ST_ITEMS), len(SEL_LEAVES["S4"]))
+    for k in range(n):
+        st = "." + ST_ITEMS[k % len(ST_ITEMS)] + "."
+        pick = lambda sel: deep_select_value(rng, schema, pool, sel, SEL_LEAVES[sel][k % len(SEL_LEAVES[sel])])
+        insts.append(G.Inst(i, [("DP_E", [("tok", st), ("aggr", [("tok", "." + x + ".") for x in ST_ITEMS[k:] + ST_ITEMS[:k]]),
+                                          ("tok", st) if k % 2 else ("null",), pick("S1"), pick("S1B"), pick("S2"), pick("S3"), pick("S4"),
+                                          ("aggr", [pick("S2"), deep_select_value(rng, schema, pool, "S2")]),
+                                          ("aggr", [pick("S3")]), ("aggr", [pick("S4"), deep_select_value(rng, schema, pool, "S4")])])]))
+        i += 1
+    if not renamed:
+        return insts
+    insts = insts[:1]
+    for k in range(6):
+        insts.append(G.Inst(i, [("DR_E", [deep_select_value(rng, schema, pool, "S2R"),
+                                          deep_select_value(rng, schema, pool, "S3R") if k % 2 else ("null",),
+                                          ("aggr", [deep_select_value(rng, schema, pool, "S3R") for _ in range(k)])])]))
+        i += 1
+    return insts
 
 
 G.gen_value = _gen_value      # new aggregate kinds only; every kind p21_gen knows is generated as before
@@ -566,14 +668,15 @@ def violations(rng, schema, pop, per_class=1):
                              where(pop[ii], pi, ai, a)))
     # undeclared enumeration item: near misses of the declared items (prefix, extension, edit, ...), every one its own file
     ENUM_ITEMS = {"ENUM": ["RED", "GREEN", "BLUE"], "BOOLEAN": ["T", "F"], "LOGICAL": ["T", "F", "U"],
-                  "AGG_ENUM": ["RED", "GREEN", "BLUE"], "AGG_BOOL": ["T", "F"], "AGG_LOG": ["T", "F", "U"]}
+                  "AGG_ENUM": ["RED", "GREEN", "BLUE"], "AGG_BOOL": ["T", "F"], "AGG_LOG": ["T", "F", "U"],
+                  "XENUM": ST_ITEMS, "AGG_XENUM": ST_ITEMS}
     epos = []
     for ii, inst in enumerate(pop):
         for pi, (n, vs) in enumerate(inst.parts):
             for ai, (a, v) in enumerate(zip(G.part_attrs(schema, inst, pi), vs)):
-                if a.kind in ("ENUM", "BOOLEAN", "LOGICAL") and v[0] == "tok":
+                if a.kind in ("ENUM", "BOOLEAN", "LOGICAL", "XENUM") and v[0] == "tok":
                     epos.append((ii, pi, ai, a, None))
-                elif a.kind in ("AGG_ENUM", "AGG_BOOL", "AGG_LOG") and v[0] == "aggr" and v[1]:
+                elif a.kind in ("AGG_ENUM", "AGG_BOOL", "AGG_LOG", "AGG_XENUM") and v[0] == "aggr" and v[1]:
                     epos.append((ii, pi, ai, a, rng.randrange(len(v[1]))))
     rng.shuffle(epos)
     for j, (ii, pi, ai, a, ei) in enumerate(epos[:max(4, 4 * per_class)]):
